@@ -89,9 +89,16 @@ impl Stepped {
     }
 }
 
-/// Encodes, for the yield point at the top of every turn of the accept_one loop: (number of handles << 16) | next.
+/// Encodes, for the yield point at the top of every turn of the accept_one loop:
+/// (availability bits of workers 0..15 << 32) | (number of handles << 16) | next.
 pub(crate) fn turn_state(a: &Accept) -> usize {
-    (a.handles.len() << 16) | (a.next & 0xffff)
+    let mut mask = 0usize;
+    for i in 0..16 {
+        if a.avail.get_available(i) {
+            mask |= 1 << i;
+        }
+    }
+    (mask << 32) | ((a.handles.len() & 0xffff) << 16) | (a.next & 0xffff)
 }
 
 /// Encodes, for the yield point after a counter increment: (availability bits of workers 0..15 << 16) |
